@@ -197,6 +197,25 @@ func (l *RangeLoop) inLoop(b *ssa.BasicBlock) bool {
 	return false
 }
 
+// completedAt: whenever control is at block b, the loop has run to completion
+// (its header test failed): the exit dominates b and nothing leaves the loop
+// early, or the header's exit edge is among the (threaded) guards at b.
+func (p *Program) completedAt(l *RangeLoop, b *ssa.BasicBlock) bool {
+	if len(l.earlyExits()) == 0 && (l.Exit == b || l.Exit.Dominates(b)) {
+		return true
+	}
+	ifi, ok := l.Header.Instrs[len(l.Header.Instrs)-1].(*ssa.If)
+	if !ok || l.Header.Succs[1] != l.Exit {
+		return false
+	}
+	for _, g := range p.guardsAt(b) {
+		if g.If == ifi && !g.Pol {
+			return true
+		}
+	}
+	return false
+}
+
 // earlyExits lists the loop blocks other than the header that have a
 // successor outside the loop (break, goto); returns do not count.
 func (l *RangeLoop) earlyExits() []*ssa.BasicBlock {
